@@ -21,10 +21,36 @@ def run_scenarios(ctx, scenarios, name="conn", timeout_ms=3000, module="TraceCon
         args = ["conn", "--scenarios", scen, "--out", trace, "--timeout-ms", timeout_ms, "--from", frm]
         if not first:
             args.append("--append")
-        p = ctx.harness(args, timeout=3600, ok_codes=(0, 3))
+        p = ctx.harness(args, timeout=3600, ok_codes=(0, 2, 3))
         first = False
         if p.returncode == 0:
             break
+        if p.returncode == 2:
+            # the Go runtime ended the process (an uncaught panic, or 'all goroutines are asleep - deadlock!'); if the server's
+            # own code is on the stacks, the server would have died (or hung) the same way: a violation in its own right for the
+            # scenario that was running.  Anything else is an infrastructure failure.
+            head = [l for l in p.stderr.splitlines() if l.startswith("fatal error:") or l.startswith("panic:")]
+            last = 0
+            if os.path.exists(trace):
+                with open(trace, "rb") as f:
+                    f.seek(max(0, os.path.getsize(trace) - 200000))
+                    tail = f.read().decode("latin1").splitlines()
+                for ln in reversed(tail):
+                    try:
+                        last = json.loads(ln)["sc"] // 10000
+                        break
+                    except Exception:
+                        continue
+            if not head or "go-redis/redis." not in p.stderr or last == 0 or last <= frm:
+                raise vlib.Inconclusive("harness conn failed (exit 2):\n%s\n%s" % (p.stdout[-2000:], p.stderr[-3000:]))
+            where = [l.strip() for l in p.stderr.splitlines() if "go-redis/redis." in l][:6]
+            ctx.violation("the process serving the connections was ended by the Go runtime: %s; server frames: %s" % (head[0], "; ".join(where)[:300]),
+                          {"scenario": scenarios[last - 1], "stderr": p.stderr[-4000:]})
+            frm = last
+            restarts += 1
+            if restarts >= 30:
+                break
+            continue
         # exit 3: a connection stalled (spinning goroutine); restart after that scenario
         frm = int(p.stdout.strip().split()[-1])
         restarts += 1
